@@ -89,6 +89,10 @@ def run_translator():
 def build_lean(targets):
     with Lock("lake"):
         rc, out = sh(["lake", "build"] + list(targets), cwd=LEAN, timeout=3600)
+        if rc != 0 and "error" not in out:
+            # no diagnostic at all: the compiler was killed from outside (memory pressure of a loaded machine).  Once more; a real failure fails again.
+            rc, out2 = sh(["lake", "build"] + list(targets), cwd=LEAN, timeout=3600)
+            out = out + "\n[lake build ended without a diagnostic (rc=%d); second attempt]\n" % rc + out2
     return rc == 0, out
 
 
